@@ -333,7 +333,7 @@ func (r *SparseReal64Vector) MdotV(a ConstMatrix, b ConstVector) Vector {
   if n == 0 || m == 0 {
     // empty sum
     for i := 0; i < r.Dim(); i++ {
-      r.AT(i).Reset()
+      r.AT(i).Set(ConstFloat64(0.0))
     }
     return r
   }
@@ -342,7 +342,7 @@ func (r *SparseReal64Vector) MdotV(a ConstMatrix, b ConstVector) Vector {
   }
   t := NullReal64()
   for i := 0; i < n; i++ {
-    r.AT(i).Reset()
+    r.AT(i).Set(ConstFloat64(0.0))
   }
   for it := a.ConstIterator(); it.Ok(); it.Next() {
     i, j := it.Index()
@@ -362,7 +362,7 @@ func (r *SparseReal64Vector) VdotM(a ConstVector, b ConstMatrix) Vector {
   if n == 0 || m == 0 {
     // empty sum
     for i := 0; i < r.Dim(); i++ {
-      r.AT(i).Reset()
+      r.AT(i).Set(ConstFloat64(0.0))
     }
     return r
   }
@@ -371,7 +371,7 @@ func (r *SparseReal64Vector) VdotM(a ConstVector, b ConstMatrix) Vector {
   }
   t := NullReal64()
   for i := 0; i < m; i++ {
-    r.AT(i).Reset()
+    r.AT(i).Set(ConstFloat64(0.0))
   }
   for it := b.ConstIterator(); it.Ok(); it.Next() {
     i, j := it.Index()
